@@ -3,7 +3,7 @@ CONSTANTS
   Mode = "conc"
   MaxLen = 0
   SeqLen = 0
-  ConcLen = 2
+  ConcLen = 1
   Symbols = {1, 2}
   Mutant = "put_before_last_in"
 INVARIANTS TypeOK LinesPrefix LinesExact NoForeignBytes OKOnlyAfterAllLines
